@@ -1,4 +1,5 @@
 pub mod expand;
+pub mod fdtable;
 pub mod fnmatch;
 pub mod glob;
 pub mod interp;
